@@ -229,6 +229,12 @@ def parse_calc(name, body, side, is_left_term):
             if cond.lstrip("!") != norm("is_left<MyArrayNum,MyScratchNum>(left,right,loc,scratch)") or is_left_term is None:
                 raise TranslateError("%s: cannot read the guard %r" % (where, mg.group(1)))
             guard = "(!%s)" % is_left_term if neg else is_left_term
+        # leading `const T[&] name = expr;` locals (named temporaries for scratch entries and the like) are inlined textually
+        while True:
+            ml = re.match(r"^const\s+[\w:]+\s*&?\s*(\w+)\s*=\s*([^;]+);\s*", st)
+            if not ml:
+                break
+            st = re.sub(r"\b%s\b" % re.escape(ml.group(1)), "(" + ml.group(2).strip() + ")", st[ml.end():])
         mc = re.match(r"^%s\s*\.\s*template\s+calc_gradient_\s*<" % child, st)
         if not mc:
             raise TranslateError("%s: does not forward to %s.calc_gradient_: %r" % (where, child, st[:80]))
